@@ -29,6 +29,7 @@ def declare(rep):
     rep.rule("C19.columns", "the six named columns are produced by the getter of that quantity, which returns the field of that name", floor=11)
     rep.rule("C19.stats-schedule", "statistics every 50th iteration and once after the loop; iteration_ incremented once per iteration", floor=3)
     rep.rule("C19.face-file-counts", "in the face-data file each declared count (CELLS, CELL_DATA, POINT_DATA, array lengths) is accumulated from the same kind of element (nodes / faces) that the emitting loop ranges over", floor=3)
+    rep.rule("C19.writer-reentrant", "the two files of a pair are written by concurrent OpenMP sections: no function on their cone formats through a mutable function-local static buffer (the files would contain each other's numbers)", floor=1)
     rep.rule("C19.file-number", "file number = floor(t/S)+1, written only on change, both paths from the same stored number, current population", floor=3)
 
 
@@ -107,9 +108,30 @@ def count_fixed(fixed):
     return len(vals), well
 
 
+def writer_reentrant(rep, prog):
+    from .. import e6
+    from .c15 import static_locals_on_cone
+    n = 0
+    for fn in prog.repo_functions():
+        if fn.get("cls") != "mesh_writer" or not isinstance(fn.get("body"), dict):
+            continue
+        for reg in e6.parallel_regions(prog, fn):
+            n += 1
+            st = static_locals_on_cone(prog, reg, fn)
+            for g_, v_ in st:
+                rep.violation("C19.writer-reentrant", prog, g_, v_, "static buffer '%s' shared by the concurrent file writers" % v_.get("name"),
+                              "%s keeps '%s' (%s) in a function-local static and is called from both sections of the %s region at %s, which write the cell-data and the face-data file at the same time: a number formatted for one file can be overwritten by the other thread before it is copied out, so a file holds coordinates / ids of the other one"
+                              % (g_["qn"], v_.get("name"), v_.get("t"), reg["kind"], prog.loc(fn, reg["node"])))
+            if not st:
+                rep.ok("C19.writer-reentrant", prog, fn, reg["node"], "%s region of %s: no mutable function-local static on its cone" % (reg["kind"], fn["qn"]))
+    if n == 0:
+        rep.note("mesh_writer has no parallel region: the files of a pair are written one after the other") if hasattr(rep, "note") else None
+
+
 def run(rep, prog, tier):
     if not rep.rules:
         declare(rep)
+    writer_reentrant(rep, prog)
     shapes = {}
     for cls in ("csv_file_statistics_writer", "string_statistics_writer"):
         ctor, wd, H, R, cell_loop = writer_shape(prog, cls)
